@@ -123,6 +123,7 @@ class GeoData(object):
         ld = _load()
         self.mg = mg = ld.mulgrids
         self.name, self.ncols = name, ncols
+        self.label = '%s%s' % (name, ncols or '')
         self.spec = spec = _spec(name, ncols)
         self.geo = geo = G.build(mg, spec)
         self.cols = list(geo.columnlist)
@@ -348,7 +349,7 @@ def task_locate(geo, ncols, variant, box, boxid):
         pt = _pt(m)
         if symptom == 'none-but-inside' and 'qtree' in variant:
             symptom = classify_qtree_miss(gd, pt)
-        failures.append(dict(key='column_containing_point/%s/%s/%s' % (geo, vclass, symptom), what=what,
+        failures.append(dict(key='column_containing_point/%s/%s/%s' % (gd.label, vclass, symptom), what=what,
                              replay=dict(fn='column', geo=geo, ncols=ncols, variant=variant, point=pt,
                                          got=got, oracle=[gd.cols[k].name for k in _oracle_column(gd, pt)])))
 
@@ -418,7 +419,7 @@ def task_compare(geo, ncols, variants, box, boxid):
         distinct.add(('ref', f.hash()))
         if c.prove(f, 'reference (unaided) result agrees with the oracle') == 'sat':
             m = c.failures[-1]['model']; pt = _pt(m)
-            failures.append(dict(key='column_containing_point/%s/plain/compare-reference-wrong' % geo,
+            failures.append(dict(key='column_containing_point/%s/plain/compare-reference-wrong' % gd.label,
                                  what='unaided search wrong', replay=dict(fn='column', geo=geo, ncols=ncols, variant=variants[0], point=pt,
                                                                           got=str(r0), oracle=[gd.cols[k].name for k in _oracle_column(gd, pt)])))
         for (v, kw, allowed, guess), r in zip(kws[1:], results[1:]):
@@ -427,7 +428,7 @@ def task_compare(geo, ncols, variants, box, boxid):
                 same = r is None      # the answer is not in the searched subset
             if c.prove(z3.BoolVal(bool(same)), 'aid %s returns the same object as the unaided search' % v) == 'sat':
                 m = c.failures[-1]['model']; pt = _pt(m)
-                failures.append(dict(key='column_containing_point/%s/%s/differs-from-unaided' % (geo, variant_class(v)),
+                failures.append(dict(key='column_containing_point/%s/%s/differs-from-unaided' % (gd.label, variant_class(v)),
                                      what='%s: %s gives %s, unaided search gives %s' % (geo, v, r, r0),
                                      replay=dict(fn='compare', geo=geo, ncols=ncols, variant=v, point=pt, got=str(r),
                                                  oracle=[gd.cols[k].name for k in _oracle_column(gd, pt)])))
@@ -463,7 +464,7 @@ def task_block(geo, ncols, use_qtree, box, zbox, boxid):
         elif r is None:
             symptom = 'none-but-inside-block'
         key = 'block_name_containing_point/%s' % symptom
-        if symptom != 'above-surface-inside-surface-layer': key += '/%s/%s' % (geo, 'qtree' if use_qtree else 'plain')
+        if symptom != 'above-surface-inside-surface-layer': key += '/%s/%s' % (gd.label, 'qtree' if use_qtree else 'plain')
         failures.append(dict(key=key, what='%s: block_name_containing_point gives %r' % (geo, r),
                              replay=dict(fn='block', geo=geo, ncols=ncols, qtree=use_qtree, point=pt, got=r,
                                          oracle=[gd.cols[k].name for k in hits])))
@@ -499,31 +500,64 @@ def task_block(geo, ncols, use_qtree, box, zbox, boxid):
 
 # ---------------------------------------------------------------------------
 
+GUESS_ALL = 'ALL'
+
 def plan(tier):
-    """(geo, ncols, boxes nx, ny, variants, compare?, block nz)"""
+    """per geometry: sub-box grid, aid configurations, compare list, block (z-slices, [use quadtree?])"""
     if tier == 'quick':
         return [
-            dict(geo='rect33', ncols=None, nx=2, ny=2, variants=['plain', 'qtree', 'brect', 'bpoly', 'guess0', 'guess4', 'guess8',
-                                                                   'cols:even', 'qtree+guess2', 'cols:odd+guess3+brect'],
+            dict(geo='rect33', ncols=None, nx=2, ny=2,
+                 variants=['plain', 'qtree', 'brect', 'bpoly', 'guess0', 'guess4', 'guess8', 'cols:even', 'qtree+guess2', 'cols:odd+guess3+brect'],
                  compare=['plain', 'qtree', 'guess6', 'bpoly', 'cols:firsthalf'], block=(2, [False, True])),
-            dict(geo='rot37', ncols=None, nx=2, ny=2, variants=['plain', 'qtree', 'bpoly', 'guess4', 'guess2'], compare=None, block=None),
-            dict(geo='mix5', ncols=None, nx=2, ny=2, variants=['plain', 'qtree', 'brect', 'bpoly', 'guess0', 'guess3', 'guess4', 'cols:odd'],
+            dict(geo='mix5', ncols=None, nx=2, ny=2,
+                 variants=['plain', 'qtree', 'brect', 'bpoly', 'guess0', 'guess3', 'guess4', 'cols:odd'],
                  compare=['plain', 'qtree', 'guess1', 'brect'], block=(2, [False, True])),
+            dict(geo='rot37', ncols=None, nx=3, ny=3, variants=['plain', 'qtree', 'guess4'], compare=None, block=None),
+            dict(geo='g7sub', ncols=10, nx=3, ny=3, variants=['plain', 'qtree'], compare=None, block=None),
         ]
-    raise NotImplementedError
+    return [
+        dict(geo='rect33', ncols=None, nx=2, ny=2,
+             variants=['plain', 'qtree', 'brect', 'bpoly', GUESS_ALL, 'cols:even', 'cols:odd', 'cols:lasthalf', 'qtree+guess2', 'qtree+guess7',
+                       'cols:odd+guess3+brect', 'cols:even+guess4+bpoly'],
+             compare=['plain', 'qtree', 'guess6', 'bpoly', 'cols:firsthalf', 'brect'], block=(3, [False, True])),
+        dict(geo='mix5', ncols=None, nx=2, ny=2,
+             variants=['plain', 'qtree', 'brect', 'bpoly', GUESS_ALL, 'cols:odd', 'cols:even', 'qtree+guess1', 'cols:even+guess2+brect'],
+             compare=['plain', 'qtree', 'guess1', 'brect', 'bpoly'], block=(3, [False, True])),
+        dict(geo='rot37', ncols=None, nx=4, ny=4,
+             variants=['plain', 'qtree', 'brect', 'bpoly', GUESS_ALL, 'cols:even', 'cols:odd', 'qtree+guess0'],
+             compare=['plain', 'qtree', 'guess8'], block=(2, [False, True])),
+        dict(geo='g7sub', ncols=16, nx=4, ny=4,
+             variants=['plain', 'qtree', 'brect', 'bpoly', 'guess0', 'guess5', 'guess9', 'guess15', 'cols:even', 'cols:lasthalf', 'qtree+guess12'],
+             compare=['plain', 'qtree', 'guess3'], block=(2, [True])),
+        dict(geo='g2sub', ncols=14, nx=5, ny=5,
+             variants=['plain', 'qtree', 'brect', 'bpoly', 'guess0', 'guess6', 'guess13', 'cols:even', 'qtree+guess9'],
+             compare=None, block=(6, [False])),
+        dict(geo='g5sub', ncols=12, nx=4, ny=4,
+             variants=['plain', 'qtree', 'bpoly', 'guess0', 'guess7', 'cols:odd'],
+             compare=None, block=None),
+    ]
 
 
 def run(tier, seed, rep):
     _load(); _real()
     tasks = []
     geos = []
+    nconf = 0
     for p in plan(tier):
         _spec(p['geo'], p['ncols'])
         gd = GeoData(p['geo'], p['ncols'], need_qtree=False)
-        geos.append('%s (%d columns, %d nodes, %d layers, tau=%.3g)' % (p['geo'], len(gd.cols), len(gd.spec['nodes']), len(gd.lbot) - 1, float(gd.tau)))
+        areas = sorted(abs(sum(P[i][0] * P[(i + 1) % len(P)][1] - P[(i + 1) % len(P)][0] * P[i][1] for i in range(len(P)))) / 2 for P in gd.polys)
+        geos.append('%s: %d columns (%s nodes each), %d layers, column areas %.3g..%.3g, tau=%.3g, tau_z=%.3g' % (
+            gd.label, len(gd.cols), '/'.join(str(k) for k in sorted(set(len(P) for P in gd.polys))), len(gd.lbot) - 1,
+            float(areas[0]), float(areas[-1]), float(gd.tau), float(gd.tauz)))
+        variants = []
+        for v in p['variants']:
+            if v == GUESS_ALL: variants += ['guess%d' % i for i in range(len(gd.cols))]
+            else: variants.append(v)
+        nconf += len(variants)
         boxes = split_boxes(gd, p['nx'], p['ny'])
         for bi, box in enumerate(boxes):
-            for v in p['variants']:
+            for v in variants:
                 tasks.append((task_locate, dict(geo=p['geo'], ncols=p['ncols'], variant=v, box=box, boxid=bi)))
             if p.get('compare'):
                 tasks.append((task_compare, dict(geo=p['geo'], ncols=p['ncols'], variants=p['compare'], box=box, boxid=bi)))
@@ -532,16 +566,56 @@ def run(tier, seed, rep):
                 for zi, zbox in enumerate(split_z(gd, nz)):
                     for uq in qts:
                         tasks.append((task_block, dict(geo=p['geo'], ncols=p['ncols'], use_qtree=uq, box=box, zbox=zbox, boxid='%d.%d' % (bi, zi))))
+    if tier == 'thorough':
+        tasks += track_tasks()
     if seed:
         import random
         random.Random(seed).shuffle(tasks)
+    # longest first is not known in advance; the pool hands tasks out one by one
     results = report.run_tasks(tasks)
     rep.add_results(results)
+    reached = {}
     for r in results:
-        if not r.get('error') and not any(k in r.get('outcomes', {}) for k in ('col', 'none', 'block')):
-            rep.harness_error('%s: no path reached an obligation' % r['name'])
-    rep.bounds += ['geometries (concrete): ' + '; '.join(geos)]
+        if r.get('error'): continue
+        fam = r['name'].split('/box')[0]
+        ok = any(k in r.get('outcomes', {}) for k in ('col', 'none', 'block', 'track'))
+        reached[fam] = reached.get(fam, False) or ok
+    for fam, ok in sorted(reached.items()):
+        if not ok: rep.harness_error('%s: no path reached an obligation (vacuous)' % fam)
+    rel = {}
+    for r in results:
+        for k, v in (r.get('extra', {}).get('guess_relation') or {}).items(): rel[k] = rel.get(k, 0) + v
+    rep.extra['guess_relation_paths'] = rel
+    if tier and not all(k in rel for k in ('right', 'neighbour', 'far')):
+        rep.harness_error('guess classes not all reached: %r' % rel)
+    rep.bounds += ['geometries are CONCRETE: ' + '; '.join(geos),
+                   'point (x, y): any real point of the geometry\'s bounding box enlarged by 10 %% on each side (cut into sub-boxes that together cover it), '
+                   'farther than tau = 1e-6 * (larger side of the bounding box) from every column edge LINE',
+                   'elevation z: any real in [lowest layer bottom - 10 %, max(top, highest surface) + 10 %], farther than tau_z = 1e-6 * height from every layer boundary and every column surface',
+                   '%d aid configurations in total: none / quadtree / bounding rectangle / boundary polygon / guess (quick: 3 per geometry; thorough: EVERY column of rect33, rot37, mix5 as guess) / '
+                   'column subsets / combinations' % nconf]
+    rep.outside += ['symbolic geometries (node positions are concrete numbers; only the point is symbolic)',
+                    'points within tau of an edge line, elevations within tau_z of a layer boundary or surface (the quantifier excludes them)',
+                    'full shipped geometries (sub-meshes of g2, g5, g7 cut by breadth-first neighbourhood + real reduce())',
+                    'IEEE rounding inside in_polygon / norm (exact real arithmetic over the exact values of the float coordinates)',
+                    'wells, blockmap argument, naming conventions other than 0'] + TRACK_OUTSIDE
+    rep.assumptions += ['point farther than tau from every edge line (encoded as |a x + b y + c| > tau * N with N a rational upper bound of |(a,b)|)',
+                        'stub: norm() of a symbolic vector is kept as its square, two norms are compared through their squares (vx/snorm.py; sqrt is monotone)',
+                        'oracle: a column contains a point iff the point satisfies all half-planes of the (convex) column polygon, or of one ear-clipping triangle for a non-convex one',
+                        'oracle: block (layer l, column k) exists iff surface_k > bottom_l and spans bottom_l .. min(top_l, surface_k), the top layer\'s block reaching up to a surface above the top',
+                        'set iteration order inside the real code (neighbour sets) varies between processes, so path counts may differ slightly from run to run; verdicts do not']
+    rep.trusted += ['harness/c12_geos.py builder (assembles a geometry the way mulgrid.read() does) and the exact oracle formulas in harness/C12.py']
+    rep.functions.update(['mulgrids.py:mulgrid.column_containing_point', 'mulgrids.py:quadtree.search', 'mulgrids.py:quadtree.leaf',
+                          'mulgrids.py:quadtree.search_wave', 'mulgrids.py:column.contains_point', 'mulgrids.py:column.near_point',
+                          'geometry.py:in_polygon', 'geometry.py:in_rectangle', 'geometry.py:rectangles_intersect',
+                          'mulgrids.py:mulgrid.block_name_containing_point', 'mulgrids.py:mulgrid.layer_containing_elevation'])
     rep.process_failures()
     return rep.finish(rule='one obligation per (geometry, aid configuration, sub-box, path): pc AND NOT(oracle agrees) must be unsat; '
                            'a path is one cell of the arrangement of the hyperplanes the real code compares the point against; '
-                           'distinct = distinct formulas by z3 AST hash')
+                           'distinct = distinct formulas by z3 AST hash per task')
+
+
+TRACK_OUTSIDE = ['column_track / line_polygon_intersections / line_intersects_rectangle (see C12.notes.md)']
+
+def track_tasks():
+    return []
